@@ -178,9 +178,23 @@ fn local_case<B: Backend>(cx: &mut Ctx, rng: &mut Prng, thorough: bool) {
     } else {
         cx.emit("backward", "equal", false, json!({"real_error": "seal failed"}));
     }
-    // reference: spec-built tokens for chosen embedded nonces must decrypt to m (again under both keys in turn)
-    for (name, n) in special_nonces(rlen, rng) {
+    // reference: spec-built tokens for chosen embedded nonces must decrypt to m (again under both keys in turn); the list ends with
+    // pairs of nonces that share their first / their second half (whatever is remembered from one token under one part of the nonce)
+    let mut refs = special_nonces(rlen, rng);
+    {
+        let (a, b, c) = (rng.bytes(rlen / 2), rng.bytes(rlen - rlen / 2), rng.bytes(rlen - rlen / 2));
+        refs.push(("shared-first-half-1", [a.clone(), b.clone()].concat()));
+        refs.push(("shared-first-half-2", [a.clone(), c.clone()].concat()));
+        let d = rng.bytes(rlen / 2);
+        refs.push(("shared-second-half-1", [a, b.clone()].concat()));
+        refs.push(("shared-second-half-2", [d, b].concat()));
+    }
+    for (name, n) in refs {
         for (which, kb, k) in [("", &keyb, &key), ("neighbour-key", &keyb2, &key2)] {
+            // the half-sharing pairs are presented one directly after the other under ONE key
+            if name.starts_with("shared-") && !which.is_empty() {
+                continue;
+            }
             let mut inp = base.clone();
             inp.insert("key".into(), kb.clone());
             inp.insert("nonce".into(), n.clone());
